@@ -23,7 +23,8 @@ Bind(r) ==
     /\ que' = ToSet(r.st.que)
     /\ status' = [x \in Alg |-> IF r.st.status[x] \in {"initial", "waiting", "running"} THEN r.st.status[x] ELSE "waiting"]
     /\ fly' = { r.st.inflight[i].alg : i \in { j \in DOMAIN r.st.inflight : ~r.st.inflight[j].stale } }
-    /\ old' = { r.st.inflight[i].alg : i \in { j \in DOMAIN r.st.inflight : r.st.inflight[j].stale } }
+    /\ old' = { r.st.inflight[i].alg : i \in { j \in DOMAIN r.st.inflight : r.st.inflight[j].stale /\ ~r.st.inflight[j].ancient } }
+    /\ anc' = { r.st.inflight[i].alg : i \in { j \in DOMAIN r.st.inflight : r.st.inflight[j].ancient } }
     /\ arch' = r.st.archive
     /\ st' = r.st.st /\ tr' = r.st.tr /\ prior' = r.st.prior /\ bg' = ToSet(r.st.bg) /\ prio' = r.st.prio
     /\ wait' = [k \in K |-> r.st.wait[k]] /\ slot' = [k \in K |-> r.st.slot[k]]
